@@ -1,2 +1,3 @@
 -- root of the library: every property module (kept in sync with bin/props.py)
 import UgoVerif.Props.C15
+import UgoVerif.Props.C06
